@@ -141,16 +141,23 @@ class Check:
                     continue
                 path = os.path.join(root, fn)
                 src = open(path).read()
-                if not re.search(r"\bsync\.(RW)?Mutex\b", src):
+                ATOMICS = r"\batomic\.(Pointer\[|Bool\b|Value\b|Int32\b|Int64\b|Uint32\b|Uint64\b)"
+                if not re.search(r"\bsync\.(RW)?Mutex\b", src) and not re.search(ATOMICS, src):
                     continue
                 new = re.sub(r"\bsync\.RWMutex\b", "zzvsync.RWMutex", src)
                 new = re.sub(r"\bsync\.Mutex\b", "zzvsync.Mutex", new)
+                # typed atomics (lock-free snapshots, flags, caches) become gates too
+                uses_atomic = re.search(ATOMICS, new) is not None
+                new = re.sub(ATOMICS, lambda mo: "zzvsync." + mo.group(1), new)
                 imp = '\t"github.com/jub0bs/cors/zzvsync"\n'
                 if "import (" in new:
                     new = new.replace("import (\n", "import (\n" + imp, 1)
                 else:
-                    new = re.sub(r'(?m)^import\s+"sync"\s*$', 'import (\n\t"sync"\n' + imp + ')', new, count=1)
-                new += "\nvar _ sync.Locker = (*sync.WaitGroup)(nil).Wait == nil && false // keeps the sync import used\n" if False else "\nvar _ sync.Locker // keeps the sync import used\n"
+                    new = re.sub(r'(?m)^import\s+("[^"]+")\s*$', lambda mo: 'import (\n\t%s\n%s)' % (mo.group(1), imp), new, count=1)
+                if re.search(r'(?m)^\s*"sync"\s*$|^import\s+"sync"', src):
+                    new += "\nvar _ sync.Locker // keeps the sync import used\n"
+                if uses_atomic:
+                    new += "\nvar _ atomic.Bool // keeps the sync/atomic import used\n"
                 open(path, "w").write(new)
                 n += 1
         self.cov["instrumented_files"] = n
